@@ -15,7 +15,7 @@ KEYTEXT = {}      # how the worker renders each key of the pool (read from a ref
 
 
 def v(x):
-    return "nil" if x == -1 else str(x)
+    return "nil" if x in (-1, -2) else str(x)       # -1: absent, -2: a stored nil
 
 
 def name(k):
@@ -45,10 +45,10 @@ def split_top(s):
 def build(case):
     kind = case["kind"]
     if kind == "obj":
-        items = [f"{name(p['k'])}: {p['v']}" for p in case["pairs"]] + [f"**{s}" for s in case["spreads"]]
+        items = [f"{name(p['k'])}: {v(p['v'])}" for p in case["pairs"]] + [f"**{s}" for s in case["spreads"]]
         lit = "{" + ", ".join(items) + "}"
     else:
-        items = [f"{p['k']['s']}: {p['v']}" for p in case["pairs"]] + [f"**{s}" for s in case["spreads"]]
+        items = [f"{p['k']['s']}: {v(p['v'])}" for p in case["pairs"]] + [f"**{s}" for s in case["spreads"]]
         lit = "%{" + ", ".join(items) + "}"
     probes = [p["k"] for p in case["at"]]
     if kind == "obj":
@@ -69,12 +69,13 @@ def expect(case):
     def keys(ps): return "[" + ", ".join(key(p) for p in ps) + "]"
     def vals(ps): return "[" + ", ".join(v(p["v"]) for p in ps) + "]"
     def items(ps): return "[" + ", ".join(f"[{key(p)}, {v(p['v'])}]" for p in ps) + "]"
-    at = "[" + ", ".join(v(a["v"]) for a in case["at"]) + "]"
+    # an absent key that names one of the map's own properties ("len") answers with that property: left open ("?")
+    at = "[" + ", ".join("?" if kind == "map" and a["k"]["s"] == '"len"' and a["v"] == -1 else v(a["v"]) for a in case["at"]) + "]"
     if kind == "obj":
         present = "[" + ", ".join(v(a["v"]) for a in case["at"] if a["v"] != -1) + "]"
-        canon = "{" + ", ".join(f"{name(p['k'])}: {p['v']}" for p in A) + "}"
+        canon = "{" + ", ".join(f"{name(p['k'])}: {v(p['v'])}" for p in A) + "}"
         return [keys(L), vals(L), items(L), keys(A), vals(A), items(A), items(L), at, present, canon, None]
-    canon = "%{" + ", ".join(f"{key(p)}: {p['v']}" for p in A) + "}"
+    canon = "%{" + ", ".join(f"{key(p)}: {v(p['v'])}" for p in A) + "}"
     return [keys(A), vals(A), items(A), items(A), str(len(A)), at, canon, None]
 
 
@@ -134,14 +135,17 @@ def run():
                 inner = body[body.index("{") + 1: body.rindex("}")]
                 got_pairs = sorted(split_top(inner))
                 if c["kind"] == "obj":
-                    want_pairs = sorted(f'"{name(p["k"])}": {p["v"]}' for p in c["all"])
-                    want_pairs_pub = sorted(f'"{name(p["k"])}": {p["v"]}' for p in c["listed"])
+                    want_pairs = sorted(f'"{name(p["k"])}": {v(p["v"])}' for p in c["all"])
+                    want_pairs_pub = sorted(f'"{name(p["k"])}": {v(p["v"])}' for p in c["listed"])
                     ok = got_pairs in (want_pairs, want_pairs_pub)
                 else:
-                    want_pairs = sorted(f'{INSPECT.get(p["k"]["s"], p["k"]["s"]).replace("{a: 1}", chr(123) + chr(34) + "a" + chr(34) + ": 1" + chr(125))}: {p["v"]}' for p in c["all"])
+                    want_pairs = sorted(f'{INSPECT.get(p["k"]["s"], p["k"]["s"]).replace("{a: 1}", chr(123) + chr(34) + "a" + chr(34) + ": 1" + chr(125))}: {v(p["v"])}' for p in c["all"])
                     ok = got_pairs == want_pairs
                 if not ok:
                     ck.reject(f"C09:{c['kind']}:print", f"{lit} prints {body} but holds {want_pairs}", {"src": reqs[i]["src"], "printed": body, "pairs": want_pairs})
+            elif nm == "index" and "?" in want and [g for g, w in zip(split_top(got[1:-1]), split_top(want[1:-1])) if w != "?"] == [w for w in split_top(want[1:-1]) if w != "?"] \
+                    and len(split_top(got[1:-1])) == len(split_top(want[1:-1])):
+                pass
             elif got != want:
                 shape = "dup" if dup else "nodup"
                 ck.reject(f"C09:{c['kind']}:{nm}:{shape}:spreads={'+'.join(c['spreads']) or '-'}", f"{lit}: {nm} gives {got}, the model gives {want}",
@@ -152,10 +156,10 @@ def run():
     ck.cov["traces_validated_against_impl"] = len(cases)
     ck.cov["exhaustive"] = True
     ck.cov["rule"] = ("object literals: every sequence of <= MaxPairs pairs over names {a, b, _p, a!, _p!} x ** operands {-, O1, O2, O1 O2, O2 O1}; map literals: every sequence "
-                      "of <= MaxPairs pairs over 19 keys (incl. a descendant of the int 5 next to 5) (ints, strs, floats incl. two that print alike, a range, descendants of [1] and (1:2) that == accepts, nil, bools, arrays incl. [1] twice-equal, object) x ** operands {-, M1, O1, M1 O1, O2 M1}; "
+                      "of <= MaxPairs pairs over 20 keys (incl. a descendant of the int 5 next to 5, and 'len', which names a property of maps), any one explicit value being nil, (ints, strs, floats incl. two that print alike, a range, descendants of [1] and (1:2) that == accepts, nil, bools, arrays incl. [1] twice-equal, object) x ** operands {-, M1, O1, M1 O1, O2 M1}; "
                       "MaxPairs 2 quick / 3 thorough; accessors keys/values/items(/private), iteration, len, index for every pool key, structure, printed pairs; "
                       "non-trivial = literals with at least one duplicate key")
-    ck.assumptions = ["names that are also Map/Obj property names are not used as absent-key probes"]
+    ck.assumptions = ["`m[k]` for an ABSENT key that names one of the map's own properties is left open (the statement only says it is not nil-by-rule)"]
     return ck.finish()
 
 
